@@ -51,6 +51,35 @@ def reconnect_scenario(r, it, tier, theme=None):
         sim.run(r.range(5, 30), dt, nets)
     return sim
 
+def lost_ack_scenario(r, it, tier):
+    """the client's handshake ACK (every copy of it, for a while) is lost: the client is connected, the server's entry is still
+    pending; the client application then disconnects / sends / goes away, so Disconnect, data and sync frames reach a PENDING
+    entry. The server must not report Disconnect or Receive for a connection it never reported."""
+    sim = E.EpSim(r, inter=it)
+    sim.srv(8, 8, r.pick([0, 1]), dict(E.DEFAULT_EP))
+    lat = r.pick([0, 5_000_000])
+    nets = {"c2s": E.Net(latency=lat), "s2c": E.Net(latency=lat)}
+    sim.nets = nets
+    dt = r.pick([5_000_000, 20_000_000, 100_000_000])
+    t_heal = r.pick([1_000, 3_000, 30_000]) * 1_000_000
+    def fate(sim, peer, dr, d):
+        if dr == "c2s" and d.get("kind") == "hsack" and sim.time < t_heal:
+            return []
+        return None
+    sim.fate_fn = fate
+    n = r.range(1, 2)
+    for i in range(n):
+        sim.cli(i, dict(E.DEFAULT_EP), nets)
+    sim.run(r.range(2, 6), dt, nets)
+    for i in range(n):
+        if r.chance(1, 2):
+            sim.send("c", i, r.below(3), r.pick([1, 3]), r.range(3, 2000))
+        sim.call(r.pick(["cdiscnow", "cdisc", "cdiscnow"]), i)
+    sim.run(r.range(10, 40), dt, nets)
+    sim.run(12, 500_000_000, nets)
+    sim.fate_fn = None
+    return sim
+
 def streams(rng, tier, ctx):
     n = 24 if tier == "quick" else 400
     it = Interactive("ep"); codec = Interactive("codec")
@@ -61,6 +90,8 @@ def streams(rng, tier, ctx):
             it.op("=== gen%d" % i)
             if i % 4 == 3:
                 sim = reconnect_scenario(r, it, tier, theme="unanswered" if i % 8 == 3 else None)
+            elif i % 8 == 2:
+                sim = lost_ack_scenario(r, it, tier)
             elif i % 4 == 1:
                 sim = E.general_scenario(r, it, tier, crossing=True, lossy=(i % 8 == 1), variants=False, dt_choices=(5_000_000, 20_000_000), n_clients=r.range(1, 3), limits=(8, 8))
             else:
